@@ -50,7 +50,7 @@ contract(SER, 'SeriesAssign.__call__', key='SeriesAssign.__call__[series]',
     rec_classes={'SaValue': ['Series']},
     result='SaSeries',
     requires=_COMMON_REQ + ['value.dtype == value.values.dtype'],
-    concrete_inputs='specs.t2_assign:concrete_inputs_series', witness_on_unknown=True, requires_concrete=[], ensures_concrete=['ref_series_assign(self, value, fill_value, result)'],
+    concrete_inputs='specs.t2_assign:concrete_inputs_series', witness_on_unknown=True, witness_always=True, requires_concrete=[], ensures_concrete=['ref_series_assign(self, value, fill_value, result)'],
     calls=_calls('value.dtype', {
         'isinstance': dict(params={}, order=['o', 't'], result='bool', ensures=['result']),
         'self.container._reindex_other_like_iloc': dict(params=dict(v='SaValue', k='elem', fill_value='elem'), order=['v', 'k'], kwonly=['fill_value'], result='SaValue',
